@@ -74,6 +74,8 @@ def run(prog, chk):
     chk.rule("C15.b", "CUR progress: no cycle of a tokenizer loop without a guaranteed advance", floor=3)
     chk.rule("C15.d", "TBL: reader-special string bytes are a subset of the writer-escaped bytes; each writer escape round-trips through the reader", floor=4)
     chk.rule("C15.e", "TAG: the serialiser covers every Variant tag; the value parser covers every token kind the tokenizer produces", floor=2)
+    chk.rule("C15.h", "FIN/typestate: the string-literal loop of stripComments returns to the top-level scanner at the offset given by the JSON "
+                      "literal automaton, for every literal over {backslash, quote, slash, letter} of up to 4 bytes", floor=1)
     chk.rule("C15.f", "CUR/typestate: stripComments writes at most one byte per consumed byte and leaves string mode only on the quote or the terminator", floor=2)
     rt = jfn(prog, J + "readToken")
     sk = jfn(prog, J + "skipSpace")
@@ -84,7 +86,15 @@ def run(prog, chk):
     summ = {J + "skipSpace": {"min_advance": 0}, J + "readToken": {"min_advance": 0}}
     report_cursor(chk, "C15.a", "C15.b", rt, CursorAnalysis(rt, ["this->pos.pos"], summ, "this->pos"), "readToken")
     report_cursor(chk, "C15.a", "C15.b", sk, CursorAnalysis(sk, ["this->pos.pos"], summ, "this->pos"), "skipSpace")
-    ca = CursorAnalysis(sc, ["src", "end"], {}, None)
+    # cursor names are read off the declarations: const char* locals are input cursors, the char* local written through is the output
+    in_curs = [d["n"] for n in sc.nodes if n["k"] == "DeclStmt" for d in n["decls"] if d.get("t") == "const char *"]
+    out_curs = [d["n"] for n in sc.nodes if n["k"] == "DeclStmt" for d in n["decls"] if d.get("t") == "char *"
+                and any(re.match(r"^\*%s\+\+$" % re.escape(d["n"]), q.no_casts(sc.r(s_.lhs))) for s_ in q.stores(sc))]
+    in_curs = sorted(set(in_curs), key=in_curs.index)
+    if not in_curs or len(out_curs) != 1:
+        raise AnalysisBroken("stripComments: input cursors %s / output cursor %s not identified" % (in_curs, out_curs))
+    SRC, DST = in_curs[0], out_curs[0]
+    ca = CursorAnalysis(sc, in_curs, {}, None)
     report_cursor(chk, "C15.a", "C15.b", sc, ca, "stripComments")
     # ------------------------------------------------------------------ d
     outer = switches_on(rt, lambda t: t == "this->token.token")
@@ -213,10 +223,11 @@ def run(prog, chk):
             chk.bad("C15.g", rt, "int-stored-without-fit-test", rt.where(st_.node), "`%s` stores a 32-bit value without the dominating test that it equals the 64-bit value parsed from the text" % rt.r(st_.node)[:60])
     # ------------------------------------------------------------------ f
     # every `*(dest++) = ...` consumes a source byte: right side reads `*(src++)` or `*(end++)`
-    wr = [s for s in q.stores(sc) if re.match(r"^\*dest\+\+$", q.no_casts(sc.r(s.lhs)))]
-    badw = [s for s in wr if not re.match(r"^\*(src|end)\+\+$", q.no_casts(sc.r(s.rhs)))]
-    res = [n for n in sc.nodes if n["k"] == "DeclStmt" and any(d["n"] == "result" for d in n["decls"])]
-    sized = bool(res) and "data.length()" in sc.r(res[0]["i"])
+    wr = [s for s in q.stores(sc) if re.match(r"^\*%s\+\+$" % re.escape(DST), q.no_casts(sc.r(s.lhs)))]
+    badw = [s for s in wr if not re.match(r"^\*(%s)\+\+$" % "|".join(re.escape(x) for x in in_curs), q.no_casts(sc.r(s.rhs)))]
+    # the String the output cursor points into is constructed with the input's length
+    res = [n for n in sc.nodes if n["k"] == "DeclStmt" and any(d.get("t") == "String" for d in n["decls"])]
+    sized = bool(res) and ("%s.length()" % sc.params[0]["n"]) in sc.r(res[0]["i"])
     if wr and not badw and sized:
         chk.ok("C15.f", sc, "output bounded by input: %d writes each consume one source byte; buffer sized data.length()" % len(wr), "%s:%s" % (sc.file, sc.line), "store shapes", evals=len(wr))
     else:
@@ -225,10 +236,146 @@ def run(prog, chk):
     gotos = [i for i, n in enumerate(sc.nodes) if n["k"] == "GotoStmt" and n.get("label") == "checkStr"]
     for g in gotos:
         atoms = fin.dominating_atoms(sc, sc.node_pos(g))
-        if any(a[0] != "case" and a[1] and fin.key(sc, a[0]) == "(*src == '\\x5c')" for a in atoms):
+        if any(a[0] != "case" and a[1] and fin.key(sc, a[0]) == "(*%s == '\\x5c')" % SRC for a in atoms):
             chk.bad("C15.f", sc, "string-mode-left-after-escape", sc.where(g),
                     "inside a string literal an escape sequence jumps back to the top-level scanner: the rest of the literal is scanned as code "
                     "(a `//` inside it is stripped, a comment after `\"a\\\\\\\\\"` is kept)")
             break
     else:
         chk.ok("C15.f", sc, "string mode is left only on the closing quote or the terminator", "%s:%s" % (sc.file, sc.line), "no goto out of the literal loop under an escape", evals=len(gotos))
+    string_mode_automaton(chk, "C15.h", sc)
+
+
+def string_mode_automaton(chk, rid, sc):
+    """FIN/typestate: the literal-scanning loop of stripComments is walked (guards evaluated, nothing executed) for every
+    NUL-terminated text `"` + content over {backslash, quote, slash, letter} up to 4 bytes; the offset at which it hands
+    control back to the top-level scanner must be the one the JSON literal automaton gives (escape = backslash plus the
+    following non-NUL byte, consumed as a pair)."""
+    import itertools
+    # the source cursor: the `const char *` local initialised from the parameter
+    cur = None
+    for n in sc.nodes:
+        if n["k"] == "DeclStmt":
+            for d in n["decls"]:
+                if d.get("t") == "const char *" and d.get("init") is not None and re.search(r"\b%s\b" % re.escape(sc.params[0]["n"]), sc.r(d["init"])):
+                    cur = d["n"]
+    if cur is None:
+        raise AnalysisBroken("stripComments: source cursor (const char * initialised from the argument) not found")
+    # entry of string mode: the false edge of `*cur != '"'` / true edge of `*cur == '"'` that is not inside the literal loop
+    entry = None
+    for b in sc.blocks.values():
+        c = b.get("cond")
+        if c is None or len(b["succ"]) != 2:
+            continue
+        t = q.no_casts(sc.r(c))
+        for op, k in (("!=", 1), ("==", 0)):
+            if t == "(*%s %s '\"')" % (cur, op) and b["succ"][k] is not None:
+                tgt = b["succ"][k]
+                # the quote test that opens a literal: the target is not yet in a loop that contains the test itself... take the
+                # one whose target block writes before any further test of the cursor (the opening quote is copied)
+                if entry is None or b["id"] > entry[0]:
+                    entry = (b["id"], tgt)
+    if entry is None:
+        raise AnalysisBroken("stripComments: the test for the opening quote was not found")
+    start_cond_block, start = entry
+
+    def step_count(e):
+        n = sc.nodes[e]
+        if n["k"] == "UnaryOperator" and n.get("op") in ("++", "post++", "pre++") or (n["k"] == "UnaryOperator" and "++" in str(n.get("op"))):
+            t = sc.nodes[sc.strip(n["c"][0])]
+            if t["k"] == "DeclRefExpr" and t["ref"].get("n") == cur:
+                return 1
+        if n["k"] == "CompoundAssignOperator" and n.get("op") == "+=" and sc.r(n["c"][0]) == cur:
+            v = fin.eval_expr(sc, n["c"][1], {})
+            return v if isinstance(v, int) else "unknown"
+        if n["k"] == "BinaryOperator" and n.get("op") == "=" and sc.r(n["c"][0]) == cur:
+            return "unknown"
+        return 0
+
+    def walk(text):
+        """returns ('left', k) when control returns to the block of the opening-quote test or its predecessors (top-level
+        scanner), ('exit', k) when the function's tail is reached, or ('undetermined', why)"""
+        k = 0
+        b = start
+        seen_top = set(sc.reach({(start_cond_block, 0)}))
+        lit = None
+        for _ in range(400):
+            blk = sc.blocks[b]
+            for e in blk["el"]:
+                if isinstance(e, int):
+                    s = step_count(e)
+                    if s == "unknown":
+                        return ("undetermined", "the cursor is re-assigned inside string mode (%s)" % sc.r(e)[:40])
+                    k += s
+            succ = blk["succ"]
+            if len(succ) == 0:
+                return ("exit", k)
+            if len(succ) == 1 or blk.get("cond") is None:
+                nb = succ[0]
+            else:
+                val = {}
+                if k < len(text):
+                    val["*" + cur] = text[k]
+                    val["%s[0]" % cur] = text[k]
+                if k + 1 < len(text):
+                    val["%s[1]" % cur] = text[k + 1]
+                v = fin.eval_expr(sc, blk["cond"], val)
+                if v is None:
+                    return ("undetermined", "`%s` at offset %d of %r" % (sc.r(blk["cond"])[:40], k, bytes(text)))
+                nb = succ[0] if v else succ[1]
+            if nb is None:
+                return ("undetermined", "dead edge taken")
+            # back at the top-level scanner: a block from which the opening-quote test is reachable and that is not in the literal loop
+            if lit is None:
+                lit = _literal_loop(sc, start)
+            if nb not in lit:
+                return ("left", k)
+            b = nb
+        return ("undetermined", "no decision after 400 blocks")
+
+    def ref(text):
+        p = 1
+        while True:
+            c = text[p]
+            if c == 0x5c and text[p + 1] != 0:
+                p += 2
+            elif c == 0x22:
+                return p + 1
+            elif c == 0:
+                return p
+            else:
+                p += 1
+
+    alphabet = (0x5c, 0x22, 0x2f, 0x61)
+    total, bad = 0, []
+    for n_ in range(0, 5):
+        for content in itertools.product(alphabet, repeat=n_):
+            text = [0x22] + list(content) + [0]
+            total += 1
+            got = walk(text)
+            want = ref(text)
+            if got[0] == "undetermined":
+                bad.append((text, "not decidable: %s" % got[1]))
+            elif got[1] != want:
+                bad.append((text, "string mode is left at offset %d, the literal automaton leaves at %d" % (got[1], want)))
+    if bad:
+        text, why = bad[0]
+        shown = bytes(text[:-1]).decode("latin-1")
+        chk.bad(rid, sc, "string-mode-disagrees-with-literal-automaton", "%s:%s" % (sc.file, sc.line),
+                "for the text %r %s (%d of %d enumerated texts disagree): from there string and code state are swapped, so comments after the "
+                "literal are kept and comment markers inside later literals are stripped" % (shown, why, len(bad), total), evals=total)
+    else:
+        chk.ok(rid, sc, "literal scanner agrees with the JSON literal automaton on %d texts" % total, "%s:%s" % (sc.file, sc.line),
+               "guard-directed walk with cursor offset tracking; escape pairs consumed together", evals=total)
+    chk.extra["literal_texts_enumerated"] = total
+
+
+def _literal_loop(sc, start):
+    """blocks of string mode: everything reachable from `start` without passing the label that re-enters the top-level scanner;
+    the top-level scanner is recognised as the blocks that can reach `start`'s predecessor test without having been in string mode:
+    here simply the blocks dominated by `start`"""
+    out = set()
+    for b in sc.blocks:
+        if sc.dominates_pos((start, 0), (b, 0)):
+            out.add(b)
+    return out
